@@ -15,6 +15,8 @@ from core import MachineryError
 CFG = "SPECIFICATION Spec\n%s\nCONSTRAINT Emit\n"
 INVS = ["LayoutParses", "CorruptRefused", "CorruptMostlyRefused"]
 HI = {"1252": "€éÿ¤‰Ž", "ISO-8859-1": "éÿ¤\xa0\x85", "NONE": "€é漢😀¤"}
+# text that Unicode normalisation would change: the body is handed over as it is in the file
+NOT_NFC = "e\u0301 \u2126 \u212b \u1100\u1161 A\u030a"
 CODEC = {"1252": "cp1252", "ISO-8859-1": "latin_1", "NONE": "utf_8"}
 
 
@@ -33,7 +35,8 @@ def random_files(ctx, rnd, n):
             for k, (nm, v) in enumerate(zip(names, vals)):
                 head += nm + ":" + bl + v + (sep if k < 8 else "")
             gap = rnd.choice(["", "\n", "\r\n", "\r\n\r\n", "\r", " ", "\n\n\n", "\t\r\n "])
-            inner = rnd.choice(["x", HI[cs], "a&amp;b " + HI[cs][:2], "line1\r\nline2", "<B>" + HI[cs][-1] + "</B>"])
+            inner = rnd.choice(["x", HI[cs], "a&amp;b " + HI[cs][:2], "line1\r\nline2", "<B>" + HI[cs][-1] + "</B>"]
+                               + ([NOT_NFC] if cs == "NONE" else []))
             body = "<OFX>" + rnd.choice(["", "\r\n", "\n  "]) + "<A>" + inner + rnd.choice(["</A>", ""]) + rnd.choice(["", "\n"]) + "</OFX>"
             trail = rnd.choice(["", "", "\n", "\r\n", "  \r\n\r\n"])
             data = head.encode("ascii") + gap.encode("ascii") + body.encode(CODEC[cs]) + trail.encode("ascii")
@@ -41,17 +44,19 @@ def random_files(ctx, rnd, n):
         else:
             xq = rnd.choice("\"'")
             oq = rnd.choice("\"'")
+            # the quote style may differ from one pseudo-attribute to the next
+            Q = [rnd.choice("\"'") if rnd.random() < 0.4 else oq for _ in range(5)]
             xml = "<?xml version=%s1.0%s encoding=%sUTF-8%s%s?>" % (xq, xq, xq, xq, rnd.choice(["", " standalone=%sno%s" % (xq, xq)]))
             uid = lambda: rnd.choice(["NONE", "b" * 36, "9-_q"])
             ofx = "<?OFX OFXHEADER=%s200%s VERSION=%s%d%s SECURITY=%s%s%s OLDFILEUID=%s%s%s NEWFILEUID=%s%s%s?>" % (
-                oq, oq, oq, rnd.choice([200, 201, 202, 203, 210, 211, 220]), oq, oq, rnd.choice(["NONE", "TYPE1"]), oq,
-                oq, uid(), oq, oq, uid(), oq)
+                Q[0], Q[0], Q[1], rnd.choice([200, 201, 202, 203, 210, 211, 220]), Q[1], Q[2], rnd.choice(["NONE", "TYPE1"]), Q[2],
+                Q[3], uid(), Q[3], Q[4], uid(), Q[4])
             br1 = rnd.choice(["", "\n", "\r\n", " "])
             br2 = rnd.choice(["", "\n", "\r\n", " ", "\r\n\r\n"])
-            inner = rnd.choice(["x", HI["NONE"], "line1\nline2"])
+            inner = rnd.choice(["x", HI["NONE"], "line1\nline2", NOT_NFC])
             body = "<OFX><A>" + inner + "</A></OFX>"
             data = (rnd.choice(["", "\n"]) + xml + br1 + ofx + br2 + body + rnd.choice(["", "\n"])).encode("utf_8")
-            ctx.nontrivial.add((2, xq, oq, br1, br2, inner))
+            ctx.nontrivial.add((2, xq, oq, len(set(Q)) > 1, br1, br2, inner))
         files.append(data)
     return files
 
